@@ -65,6 +65,8 @@ def plan(ctx):
         shards.append(('doc', prof, n, i))
     shards.append(('doc', 'flat', ctx.pick(25, 600), 16))
     shards.append(('doc', 'wide', ctx.pick(150, 3000), 17))
+    shards.append(('doc', 'longbracket', ctx.pick(12, 300), 18))
+    shards.append(('doc', 'longbrace', ctx.pick(12, 300), 19))
     return [('shard_docs', shards)]
 
 
